@@ -65,9 +65,12 @@ X11_DEFAULT = dict(N=3, MaxX=3, ServerAllows='TRUE', AtomicOpen='FALSE',
                    KeepClosedCookies='FALSE')
 X11_INVS = ['ServedOnlyLive', 'LiveIsServed', 'ValidExact', 'RegExact',
             'ClientListener', 'ServerListener', 'Published', 'SingleOnce']
+LA_ANSWERS = '{"false", "true", "callable", "applistener", "otherconn"}'
 LA_DEFAULT = dict(N=3, Sides='{"remote", "local"}', Fams='{"tcp", "unix"}',
+                  Answers=LA_ANSWERS, UntrackedAppListener='FALSE',
                   LateStore='{}')
-LA_INVS = ['ListenersReleased', 'SocketsExact', 'NoLateListener']
+LA_INVS = ['ListenersReleased', 'SocketsExact', 'NoLateListener',
+           'ClosedOnce', 'CancelKeepsConnection']
 DEFAULTS = {'ListenAsync': LA_DEFAULT,
             'Forward': FWD_DEFAULT, 'Socks': SOCKS_DEFAULT,
             'ForwardPerm': PERM_DEFAULT, 'Listeners': LSN_DEFAULT,
@@ -234,7 +237,8 @@ LSN_REGRESSIONS = [
 ]
 
 # listeners whose creation is asynchronous vs. the end of the connection
-LAC = lambda side, fam: dict(side=side, fam=fam)
+LAC = lambda side, fam, ans='true', **kw: dict(
+    side=side, fam=fam, ans=ans if side == 'remote' else '-', **kw)
 LA_REGRESSIONS = []
 for _side in ('remote', 'local'):
     for _fam in ('tcp', 'unix'):
@@ -244,9 +248,35 @@ for _side in ('remote', 'local'):
                 LA_REGRESSIONS += [
                     [_r, ('end', _end), ('decide', 1, True), ('setup', 1)],
                     [_r, ('decide', 1, True), ('end', _end), ('setup', 1)],
-                    [_r, ('end', _end), ('decide', 1, False)]]
+                    [('request', 1, LAC(_side, _fam, 'false')),
+                     ('end', _end), ('decide', 1, False)]]
             else:
                 LA_REGRESSIONS += [[_r, ('end', _end), ('setup', 1)]]
+# the kind of answer the server application gives (synchronously here, as an
+# awaitable in the TLC behaviours), then cancel / every way the connection ends
+for _fam in ('tcp', 'unix'):
+    for _ans in ('applistener', 'otherconn', 'true', 'callable', 'acallable',
+                 'false'):
+        if _fam == 'unix' and _ans in ('callable', 'acallable'):
+            continue            # unix_server_requested has no accept handler
+        _setup = [('setup', 1)] if _ans in ('true', 'callable', 'acallable') \
+            else []
+        for _tail in ([('cancel', 1), ('end', 'cclose')], [('end', 'cclose')],
+                      [('end', 'sclose')], [('end', 'loss')]):
+            if _ans == 'false' and _tail[0][0] == 'cancel':
+                continue
+            LA_REGRESSIONS.append(
+                [('request', 1, LAC('remote', _fam, _ans, sync=True))] +
+                _setup + _tail)
+_P = 23000 + os.getpid() % 20000
+LA_REGRESSIONS += [
+    # fixed port, two application listeners, one cancelled
+    [('request', 1, LAC('remote', 'tcp', 'applistener', fixed=_P)),
+     ('decide', 1, True),
+     ('request', 2, LAC('remote', 'tcp', 'applistener')), ('decide', 2, True),
+     ('cancel', 1), ('request', 3, LAC('remote', 'tcp', 'otherconn')),
+     ('decide', 3, True), ('end', 'loss')],
+]
 LA_REGRESSIONS += [
     [('request', 1, LAC('remote', 'tcp')), ('decide', 1, True), ('setup', 1),
      ('request', 2, LAC('remote', 'unix')), ('request', 3, LAC('local', 'tcp')),
@@ -494,10 +524,20 @@ def main(ctx):
     # asynchronous listener creation vs. connection end
     jobs.append(Job('listen-async required rules', 'ListenAsync', {}, LA_INVS,
                     view=False))
-    jobs.append(Job('listen-async sensitivity LateStore (expected '
+    jobs.append(Job('listen-async sensitivity UntrackedAppListener (expected '
                     'ListenersReleased)', 'ListenAsync',
-                    dict(LateStore='{"remote"}'), ['ListenersReleased'],
+                    dict(UntrackedAppListener='TRUE'), ['ListenersReleased'],
                     expect='ListenersReleased', view=False))
+    if not quick:
+        jobs.append(Job('listen-async sensitivity LateStore (expected '
+                        'ListenersReleased)', 'ListenAsync',
+                        dict(LateStore='{"remote"}'), ['ListenersReleased'],
+                        expect='ListenersReleased', view=False))
+        jobs.append(Job('listen-async sensitivity UntrackedAppListener '
+                        '(expected CancelKeepsConnection)', 'ListenAsync',
+                        dict(UntrackedAppListener='TRUE'),
+                        ['CancelKeepsConnection'],
+                        expect='CancelKeepsConnection', view=False))
     # X11 forwarding
     jobs.append(Job('x11 rules', 'X11',
                     dict(N=2, MaxX=3) if quick else dict(MaxX=3),
@@ -582,7 +622,7 @@ def main(ctx):
                          dict(MaxX=3, AtomicOpen='TRUE', ServerAllows='FALSE'),
                          simulate=40, depth=10, view=False))
     asims = [Job('listen-async sim', 'ListenAsync',
-                 dict(LateStore=late_store), simulate=30 if quick else 300,
+                 dict(LateStore=late_store), simulate=40 if quick else 300,
                  depth=12, view=False)]
     run_jobs(ctx, jobs + sims + wsims + lsims + xsims + asims, parallel=6)
     jobmap = {j.name: j for j in jobs + sims}
